@@ -305,14 +305,18 @@ PROPS["C02"] = {
             "the schedule is a generated list of choices (<= 200) or, in the DFS leg, every schedule with <= 2 (thorough: 3) preemptions of 6 fixed configurations.  The recording Processer "
             "counts active Invoke calls around two yields: more than one at a time, or a panic on any thread, is the violation.  Engine level: Spawn, 1..2 sender threads issuing sends, panicking "
             "sends, Poison and Stop under generated schedules; every Receive (lifecycle messages and restarts included) increments/decrements a counter around a yield.  "
-            "Non-trivial = the trace has >= 2 context switches and >= 2 threads executed a CAS on procStatus (engine level: additionally a pill or a restart).  Distinct = configuration + consumed schedule.",
-    "technique": "schedule-owning property testing: generated interleavings (rapid) and preemption-bounded exhaustive enumeration of a real Inbox / Engine under a cooperative scheduler injected at build time",
+            "Non-trivial = the trace has >= 2 context switches and >= 2 threads executed a CAS on procStatus (engine level: additionally a pill or a restart).  Distinct = configuration + consumed schedule.  "
+            "History leg (real goroutines, unmodified package actor): generated single-actor histories (sends, panicking sends, gates that block the receiver inside Receive, releases, bursts, Stop, Poison, "
+            "respawn, planned panics in Initialized/Started, sends racing the start-up) with an entry/exit counter around every invocation of the actor's Receive over all incarnations: while a gate holds "
+            "the receiver inside Receive any further delivery, by whichever goroutine, is an overlap; non-trivial there = a crash and a gate in one history, or sends racing the start-up.",
+    "technique": "schedule-owning property testing: generated interleavings (rapid) and preemption-bounded exhaustive enumeration of a real Inbox / Engine under a cooperative scheduler injected at build time; plus generated gate-controlled histories on the real engine with an overlap counter",
     "level_text": "Generated-schedule search plus complete enumeration of all schedules with a bounded number of preemptions for small configurations; the oracle is an overlap counter.",
-    "level_note": "sequentially consistent interleavings of the rewritten code only; trusts the rewriter (imports and go statements) and vsched",
-    "assumptions": SCHED_ASSUME,
+    "level_note": "sequentially consistent interleavings of the rewritten code only; trusts the rewriter (imports and go statements) and vsched; the history leg owns the history (gates), not the schedule",
+    "assumptions": SCHED_ASSUME + ["history leg: one driver goroutine, gates instead of timing (internal/life)"],
     "legs": [rapid("rand", "sched", "TestSerialRandom", 20000, 300000, shards=(2, 12), flavour="sched"),
              plain("dfs", "sched", "TestSerialDFS", flavour="sched"),
-             rapid("engine", "sched", "TestSerialEngine", 4000, 60000, shards=(2, 12), flavour="sched")],
+             rapid("engine", "sched", "TestSerialEngine", 4000, 60000, shards=(2, 12), flavour="sched"),
+             rapid("hist", "c02", "TestSerialHistories", 3000, 40000, shards=(2, 12))],
 }
 
 PROPS["C03"] = {
